@@ -7,6 +7,7 @@ def check(ctx, rep):
     pf = rxr.rx_2(ctx, Report('scratch'))   # only the accumulator roles are needed here (purity is C09)
     tok.tok_1_2(ctx, rep, pf.acc)
     tok.tok_3(ctx, rep, pf.acc)
+    tok.tok_8(ctx, rep)
     tok.tok_5(ctx, rep)
     par.par_1(ctx, rep)
     par.pop_shape(ctx, rep)
